@@ -269,3 +269,21 @@ CHECKS["C16"] = {
         {"pkg": "safeprime", "run": "TestVF_C16_WorkerStop", "shards": {"quick": 2, "thorough": 4}, "timeout": {"quick": 600, "thorough": 3400}},
     ],
 }
+
+CHECKS["C18"] = {
+    "level": "fault_enumeration",
+    "technique": "round-trip property testing (rapid) of integers and of every protocol message type with verdict preservation, exhaustive enumeration of single-element corruptions of key documents (three readers, demo on/off) and of prior file states x umasks x overwrite flag for key files; native fuzzing of the key readers in the thorough tier",
+    "level_text": "Integers over boundary byte lengths survive JSON (both input forms), XML, binary and CBOR, negatives are refused by the text encodings; key documents round-trip field by field through all three readers; every single-element deletion, negation, garbling, count or length change of a key document yields an error (never a panic or a key object) when the element is mandatory; every message type re-read from JSON/CBOR verifies exactly as the original did; a written private-key file never has group/other permission bits.",
+    "level_note": "Runs as root in this sandbox: permission-denied cases cannot occur, the resulting mode is asserted regardless. The umask sub-check runs in its own process.",
+    "rule": ("case = one round trip / one corrupted document through one reader / one file-state tuple. Non-trivial: boundary-length and negative integers, each (element, corruption) pair, messages with optional parts present, each state tuple; distinct by value / (document, corruption, reader) / tuple."),
+    "assumptions": ["encoding/json, encoding/xml, fxamacker/cbor as transport"],
+    "units": [
+        {"pkg": "big", "run": "TestVF_C18_BigInt", "rapid": {"quick": 3000, "thorough": 60000}, "shards": {"quick": 1, "thorough": 4}},
+        {"pkg": "gabikeys", "run": "TestVF_C18_KeyRoundTrip"},
+        {"pkg": "gabikeys", "run": "TestVF_C18_MalformedKeys"},
+        {"pkg": "gabikeys", "run": "TestVF_C18_KeyFileModes"},
+        {"pkg": "root", "run": "TestVF_C18_Messages", "rapid": {"quick": 150, "thorough": 800}, "shards": {"quick": 6, "thorough": 16}},
+        {"pkg": "gabikeys", "fuzz": "FuzzVF_C18_PublicKey", "run": "FuzzVF_C18_PublicKey", "tiers": ["thorough"], "seconds": {"thorough": 120}, "workers": 8},
+        {"pkg": "gabikeys", "fuzz": "FuzzVF_C18_PrivateKey", "run": "FuzzVF_C18_PrivateKey", "tiers": ["thorough"], "seconds": {"thorough": 120}, "workers": 8},
+    ],
+}
